@@ -272,9 +272,6 @@ def gen_obj_case(rng, flavour):
             if rr < 0.55:
                 return f"vro {rng.choice(VIEW_RO_0)} {v}"
             name = rng.choice(VIEW_RO_Q)
-            if name == "interleave" and k in ("vsqlite", "vlcaload1"):
-                # a half-consumed search on a SqliteIndex locks its connection (finding C15.4): that case lives in corpus/C15/
-                name = "prefetch"
             return f"vro {name} {v} {S()}" + (f" {S()}" if name == "interleave" else "")
         return sig_op()
 
